@@ -39,6 +39,31 @@ func c04Coll(kind string, n int) (coll any, present bool, itemPath string, items
 			items = append(items, fmt.Sprintf("a%d", i))
 		}
 		coll = s
+	case "anysnil":
+		// untyped nil items: the binding exists and is nil (must still shadow outer names)
+		s := []any{}
+		for i := 0; i < n; i++ {
+			if i%2 == 1 {
+				s = append(s, nil)
+				items = append(items, "")
+			} else {
+				s = append(s, fmt.Sprintf("a%d", i))
+				items = append(items, fmt.Sprintf("a%d", i))
+			}
+		}
+		coll = s
+	case "ptrsnil":
+		s := []*c04Item{}
+		for i := 0; i < n; i++ {
+			if i%2 == 0 {
+				s = append(s, nil)
+				items = append(items, "")
+			} else {
+				s = append(s, &c04Item{Name: fmt.Sprintf("p%d", i)})
+				items = append(items, fmt.Sprintf("p%d", i))
+			}
+		}
+		coll, itemPath = s, ".Name"
 	case "ints":
 		s := []int{}
 		for i := 0; i < n; i++ {
@@ -119,7 +144,7 @@ func c04Coll(kind string, n int) (coll any, present bool, itemPath string, items
 	return
 }
 
-var c04Kinds = []string{"anys", "ints", "int32s", "strings", "bools", "array", "maps", "structs", "structsTag", "ptrs", "nilslice", "nilvalue", "missing"}
+var c04Kinds = []string{"anys", "anysnil", "ptrsnil", "ints", "int32s", "strings", "bools", "array", "maps", "structs", "structsTag", "ptrs", "nilslice", "nilvalue", "missing"}
 
 type c04Case struct {
 	Coll  string `json:"coll"`
@@ -203,7 +228,7 @@ func (c *c04Case) build() (tpl string, data any, wantInst []string, wantElse boo
 			s = fmt.Sprintf("[%d|%s]", i, it)
 		}
 		if c.Elem == "bind" {
-			if it != "false" && it != "0" { // a falsy bound value omits the attribute (C14)
+			if it != "false" && it != "0" && it != "" { // a falsy bound value omits the attribute (C14)
 				s += "@v=" + it
 			}
 			if c.Form == "ix" {
@@ -245,6 +270,11 @@ func (c *c04Case) Run(ctx *core.Ctx) {
 	}
 	tpl, data, wantInst, wantElse, wantAfter, ok := c.build()
 	if !ok {
+		return
+	}
+	if c.Coll == "ptrsnil" && c.Print == "expr" {
+		// a field of a nil pointer inside an expression: whether that is an error is the expression language's business
+		ctx.Zone("field-of-nil-pointer-in-expression")
 		return
 	}
 	if c.Coll == "structsTag" && c.Print == "expr" {
@@ -364,7 +394,7 @@ func init() {
 	core.Register(&core.Check{
 		ID:    "C04",
 		Level: "exploration",
-		Rule: "every combination of collection kind (13: slices of any/int/int32/string/bool/map/struct/*struct, array, nil slice, nil value, missing) x length x access path x loop form x loop-variable name (fresh / shadows a map key / shadows a root struct field by name / by JSON tag) x v-else (none/adjacent/after whitespace) x looped element (plain, v-if, bindings, <template>) x root data (map/struct/*struct) x printing position ({{ }}, expression); plus nested loops. " +
+		Rule: "every combination of collection kind (15: incl. slices with nil items, slices of any/int/int32/string/bool/map/struct/*struct, array, nil slice, nil value, missing) x length x access path x loop form x loop-variable name (fresh / shadows a map key / shadows a root struct field by name / by JSON tag) x v-else (none/adjacent/after whitespace) x looped element (plain, v-if, bindings, <template>) x root data (map/struct/*struct) x printing position ({{ }}, expression); plus nested loops. " +
 			"oracle: reference interpreter gives the instance list, for-else presence and the value of the loop variable's name before and after the loop. non-trivial = at least one item",
 		Bounds:      map[string]string{"quick": "lengths 0..2, nesting depth 2", "thorough": "lengths 0..3, nesting depth 2"},
 		Assumptions: []string{"iteration over maps is C10's subject, not enumerated here", "v-else after an element carrying both v-for and v-if is ambiguous and not generated"},
